@@ -372,19 +372,82 @@ func (e *env) processResults(s *session, rs []*spb.ModifyResponse) {
 		if e.failStates == nil || !s.alignLost || len(e.failStates) > 256 {
 			e.failStates = []*Model{e.model.Clone()}
 		}
-		var fails []*spb.AFTResult
+		var fails, succ []*spb.AFTResult
 		for _, res := range r.GetResult() {
 			if res.GetStatus() == spb.AFTResult_FAILED {
 				fails = append(fails, res)
 				continue
 			}
-			e.oneResult(s, res)
-			if res.GetStatus() == spb.AFTResult_RIB_PROGRAMMED {
-				e.failStates = append(e.failStates, e.model.Clone())
+			succ = append(succ, res)
+		}
+		// Everything one message acknowledges is installed when the message is sent; the ORDER of the results
+		// inside it is the server's business (the tree lists them as installed, another server may sort them by
+		// id). A success whose references are not there yet is therefore looked at again after the others of
+		// the same message - together with every later result for the same key, whose order among themselves
+		// is the only thing that tells which payload won.
+		for pass := 0; len(succ) > 0; pass++ {
+			var deferred []*spb.AFTResult
+			defID, defKey := map[uint64]bool{}, map[Key]bool{}
+			progress := false
+			for _, res := range succ {
+				rec := s.sent[res.GetId()]
+				if rec == nil {
+					rec = e.allOps[res.GetId()]
+				}
+				var key *Key
+				if rec != nil {
+					if _, en, _ := e.model.Analyse(rec.op); en != nil {
+						k := en.Key
+						key = &k
+					}
+				}
+				hold := defID[res.GetId()] || (key != nil && defKey[*key])
+				if canNow := false; !hold && pass < 8 && res.GetStatus() == spb.AFTResult_RIB_PROGRAMMED {
+					// (whichever operation the id stands for: this stream's own, another session's held one, or
+					// one shadowed by a later use of the id)
+					for _, c := range []*opRec{s.sent[res.GetId()], e.allOps[res.GetId()], e.shadow[res.GetId()]} {
+						if c == nil || (c.state != opSent && c.state != opHeld) || c.op.GetOp() == spb.AFTOperation_DELETE {
+							continue
+						}
+						switch v, _, _ := e.model.Expect(c.op); v {
+						case VHold:
+							hold = true
+							if _, en, _ := e.model.Analyse(c.op); en != nil {
+								k := en.Key
+								key = &k
+							}
+						case VProgram, VEither:
+							canNow = true
+						}
+					}
+					if canNow {
+						hold = false // one of the operations the id may stand for can be acknowledged as things are
+					}
+				}
+				if hold {
+					deferred = append(deferred, res)
+					defID[res.GetId()] = true
+					if key != nil {
+						defKey[*key] = true
+					}
+					continue
+				}
+				progress = true
+				e.oneResult(s, res)
+				if res.GetStatus() == spb.AFTResult_RIB_PROGRAMMED {
+					e.failStates = append(e.failStates, e.model.Clone())
+				}
+				if e.onResult != nil {
+					e.onResult()
+				}
 			}
-			if e.onResult != nil {
-				e.onResult()
+			if len(deferred) > 0 && progress {
+				e.probe("results of one response listed in another order than their references resolve")
 			}
+			if !progress {
+				pass = 8 // nothing else can help: judge the rest as they come
+			}
+			succ = deferred
 		}
 		for _, res := range fails {
 			e.oneResult(s, res)
